@@ -1343,6 +1343,8 @@ def _g_reduce(g, ins):
         need(a.np.size > 0)
     if fn == "nanprod":
         need(a.mag <= 4)
+    if fn in ("prod", "nanprod"):
+        need(a.inx == 0)  # a product amplifies last-bit noise without bound (an exact 0.0 vs 1e-16 decides the result)
     if fn == "ptp":
         need(axis is None or isinstance(axis, int))
     p = {"fn": fn, "axis": axis}
